@@ -112,6 +112,24 @@ def main():
             except Exception as e:  # noqa
                 meta["suite_error"] = str(e)
             missing = sorted(want - passed)
+            # tests that are flaky on the clean tree under load (unseeded random data, text comparison of near-zero numbers): re-run alone
+            if 0 < len(missing) <= 4:
+                still = []
+                for nm in missing:
+                    modname, tname = nm.split("::")
+                    path = modname.replace(".", "/") + ".py::" + tname
+                    okk = False
+                    for _ in range(3):
+                        rc2, o2 = sh(f"{PY} -m pytest -q -p no:cacheprovider --timeout=900 {path}", cwd=wt, timeout=1800, env=env)
+                        if rc2 == 0:
+                            okk = True
+                            break
+                    if okk:
+                        passed.add(nm)
+                        meta.setdefault("reran_alone_and_passed", []).append(nm)
+                    else:
+                        still.append(nm)
+                missing = still
             meta["suite_passed"] = len(passed & want)
             meta["suite_baseline"] = len(want)
             meta["suite_missing"] = missing[:20]
